@@ -71,6 +71,8 @@ def demo_flags(demo_src):
         extra.append('--demo-first')
     if re.search(r'(?<![\w-])-pthread(?![\w-])', cmd):
         extra.append('-pthread')
+    if re.search(r'(?<![\w-])-static(?![\w-])', cmd) and '-nostdlib' not in cmd:
+        extra.append('-static')        # the demonstration wants a statically linked program (archive members are pulled by need)
     if '-Wl,-z,now' in cmd:
         extra.append('-Wl,-z,now')
     if '-fgnuc-version=0' in cmd:
